@@ -150,4 +150,14 @@ CHECKS = {
           "correspondence; to_chord_note/to_extension_note, instrument normalisations, split_too_long_chords and normalize are oracle-only. "
           "A relative note with no reference (leading, or after the part was absent) is outside the domain: to_absolute_note raises or uses a stale reference there.",
  },
+ "C13": {
+  "text": "Theorems (plain projection, integer ticks): the chords of the result are the target's, in order, for as long as the result lasts; "
+          "every part of the window put on one chord lasts the window; for a source whose parts last their chords and target chords of "
+          "positive length the result lasts exactly min(source, target) (built on C12's window theorem, any misalignment of boundaries). "
+          "The projection model (windowing, put_on_same_chord with rests for absent parts, keep_score dictionary merge) is tied to "
+          "Score.project_on_score(voice_leading=False) by correspondence; the oracle checks on the implementation: chords, duration, written "
+          "symbols and rhythm kept (plain), rhythm kept (default voice-leading mode), sound kept exactly (keep_pitch), target parts retained (keep_score).",
+  "note": "Trusted: Coq kernel; adapters. The default mode (project_on_one_chord offsets) and keep_pitch are oracle-only; with keep_score the "
+          "target's retained parts may outlast a shorter source (the duration clause is judged on the projected parts).",
+ },
 }
